@@ -220,8 +220,11 @@ def make(timeout=3000):
     if not os.path.exists(os.path.join(COQ, 'Makefile')):
         subprocess.run(['coq_makefile', '-f', '_CoqProject', '-o', 'Makefile'],
                        cwd=COQ, check=True, capture_output=True)
-    r = subprocess.run(['make', '-j%d' % NPROC], cwd=COQ, capture_output=True,
-                       text=True, timeout=timeout)
+    import fcntl
+    with open(os.path.join(COQ, '.build.lock'), 'w') as lk:
+        fcntl.flock(lk, fcntl.LOCK_EX)      # one build at a time
+        r = subprocess.run(['make', '-j%d' % NPROC], cwd=COQ, capture_output=True,
+                           text=True, timeout=timeout)
     return r.returncode, (r.stdout + r.stderr)
 
 
